@@ -24,6 +24,10 @@ func init() {
 		Doc: "as reopen-send but the sender issues a roots/list request which the peer answers"})
 	RegisterScenario(&Scenario{Name: "c11/reopen-close1", Run: func(p []int, m []vsched.ChoicePoint) explore.Outcome { return c11Run(p, "close1") },
 		Doc: "as reopen-send plus a thread in which the client closes stream #1 concurrently"})
+	RegisterScenario(&Scenario{Name: "c11/straddle", Run: func(p []int, m []vsched.ChoicePoint) explore.Outcome { return c11Run(p, "straddle") },
+		Doc: "GET#1 registered; GET#2 handler || a SendNotification that waits for nothing (it straddles the replacement); afterwards stream #2 must be open, registered and reachable"})
+	RegisterScenario(&Scenario{Name: "c11/straddle-stalled", Run: func(p []int, m []vsched.ChoicePoint) explore.Outcome { return c11Run(p, "straddle-stalled") },
+		Doc: "as straddle, with the reader of stream #1 stalled so that the early send blocks inside its write while the stream is replaced"})
 	RegisterScenario(&Scenario{Name: "c11/triple", Run: func(p []int, m []vsched.ChoicePoint) explore.Outcome { return c11Run(p, "triple") },
 		Doc: "GET#1 registered; GET#2 || GET#3 opened concurrently; sends at quiescence must reach the surviving stream"})
 	RegisterCheck("C11", func(c *Ctx) {
@@ -35,6 +39,8 @@ func init() {
 		c.DFSBoth("c11/reopen-roots", explore.Bounds{Preempt: pb, Dev: 2}, 1)
 		c.DFSBoth("c11/reopen-close1", explore.Bounds{Preempt: pb, Dev: 2}, 1)
 		c.DFSBoth("c11/triple", explore.Bounds{Preempt: c.Pick(3, 5), Dev: 1}, 1)
+		c.DFSBoth("c11/straddle", explore.Bounds{Preempt: c.Pick(3, 5), Dev: 1}, 1)
+		c.DFSBoth("c11/straddle-stalled", explore.Bounds{Preempt: c.Pick(3, 5), Dev: 1}, 1)
 	})
 }
 
@@ -121,10 +127,26 @@ func c11Run(prefix []int, mode string) explore.Outcome {
 				x3 = x
 			})
 		}
+		if mode == "straddle" || mode == "straddle-stalled" {
+			// a send that does not wait for anything: it may look the stream up before, during or after
+			// the replacement. Its own fate is not constrained (the old stream may swallow it); what
+			// it must not do is damage the new stream.
+			if mode == "straddle-stalled" {
+				x1.Stall(true) // the old stream's reader is slow: the send blocks inside its Write
+			}
+			vsched.Go("early-sender", func() {
+				srv.SendNotification(sid, "notifications/message", map[string]interface{}{"n": 7})
+			})
+		}
 		if mode == "close1" {
 			vsched.Go("close1", func() { x1.CloseFromClient() })
 		}
 		vsched.Quiesce()
+
+		if mode == "straddle-stalled" {
+			x1.Stall(false)
+			vsched.Quiesce()
+		}
 
 		// ---- oracle ----
 		if x2 == nil || !x2.HeaderSent {
@@ -214,6 +236,7 @@ func finishOutcome(res *vsched.Result, obs *hx.Log, viol []explore.Violation, no
 		viol = append(viol, V("deadlock", "deadlock: %v", res.Blocked))
 	}
 	viol = append(viol, raceViolations()...)
+	viol = append(viol, misuseViolations()...)
 	if res.Horizon {
 		viol = append(viol, V("horizon", "step horizon exceeded (livelock/spin?): %v", res.Blocked))
 	}
@@ -221,6 +244,33 @@ func finishOutcome(res *vsched.Result, obs *hx.Log, viol []explore.Violation, no
 	o.ObsKey = obs.String() + " #" + strings.Join(keys, ",")
 	o.Violations = viol
 	return o
+}
+
+// misuse of the environment's objects reported by memnet during the execution just finished
+// (concurrent use of one http.ResponseWriter, see memnet.NonAtomicWriter).
+var misuseLog []explore.Violation
+
+func init() {
+	memnet.OnMisuse = func(key, msg string) {
+		for _, v := range misuseLog {
+			if v.Key == key {
+				return
+			}
+		}
+		misuseLog = append(misuseLog, explore.Violation{Key: key, Msg: msg})
+	}
+}
+
+func misuseViolations() []explore.Violation {
+	out := misuseLog
+	misuseLog = nil
+	return out
+}
+
+// nonAtomicWriters switches the non-atomic ResponseWriter model on for the duration of one execution.
+func nonAtomicWriters() func() {
+	memnet.NonAtomicWriter = true
+	return func() { memnet.NonAtomicWriter = false }
 }
 
 // panicSite extracts the first library frame of a panic stack (stable key for known findings).
